@@ -14,5 +14,6 @@ Conforms(in, obs) ==
 
 Describe(in) == Expected(in)
 
+Beyond(in) == FALSE
 INSTANCE TraceCheck
 =============================================================================
